@@ -295,6 +295,9 @@ func helpers(out string) {
 }
 
 func main() {
+	if os.Getenv("VERIF_X13_CHILD") != "" {
+		cmdChild() // os.Args[1:] is the vector under test, nothing of it is for this harness
+	}
 	mode := flag.String("mode", "strs", "")
 	in := flag.String("in", "scen.ndjson", "")
 	out := flag.String("out", "cases.ndjson", "")
@@ -327,6 +330,10 @@ func main() {
 		roles(*out)
 	case "front":
 		front(*out)
+	case "cmdline":
+		cmdline(*out, *maxlen)
+	case "seekread":
+		seekread(*out, rng)
 	case "waitfor":
 		waitfor(*out, *maxlen)
 	case "waitchild":
